@@ -18,6 +18,7 @@ func All() map[string]core.Prop {
 		"C11": C11{},
 		"C12": C12{},
 		"C13": C13{},
+		"C14": C14{},
 		"C15": C15{},
 		"C16": C16{},
 		"C17": C17{},
